@@ -69,19 +69,19 @@ def _undoes(h: ast.ExceptHandler, ctx: Optional[Ctx] = None, f: Optional[Func] =
     return undone
 
 
-def r15_1(ctx: Ctx) -> None:
+def r15_1(ctx: Ctx, rule: str = "R15.1") -> None:
     for name in ("write", "_writef"):
         f = shared.szf(ctx, name)
         cfg = cfg_of(f.node)
         regs = _registrations(f, ctx)
         arch = [c for c in q.calls(f) if "py7zr:Worker.archive" in shared.targets_of(ctx, f, c)]
-        ctx.floor("R15.1", len(arch), 1, f"Worker.archive call in {name}")
-        ctx.floor("R15.1", len(regs), 3, f"member registrations in {name}")
+        ctx.floor(rule, len(arch), 1, f"Worker.archive call in {name}")
+        ctx.floor(rule, len(regs), 3, f"member registrations in {name}")
         for a in arch:
             an = q.node_for(f, a)
             before = [(k, r) for k, r in regs if cfg.reaches(q.node_for(f, r), an)]
             if not before:
-                ctx.ok("R15.1", f"{name}: registrations follow Worker.archive")
+                ctx.ok(rule, f"{name}: registrations follow Worker.archive")
                 continue
             # must be protected by a catch-all handler that undoes the registrations and re-raises
             good = False
@@ -102,13 +102,13 @@ def r15_1(ctx: Ctx) -> None:
                         good = True
                     else:
                         why = f"the handler undoes {sorted(undone)} of {sorted(need)} and {'re-raises' if reraises else 'does not re-raise'}"
-            ctx.check(good, "R15.1", f, a, f"{name}: registrations before Worker.archive are rolled back on failure",
+            ctx.check(good, rule, f, a, f"{name}: registrations before Worker.archive are rolled back on failure",
                       f"{name} registers the member ({', '.join(k for k, _ in before)}) before Worker.archive opens/reads the source and {why}: "
                       "a source that cannot be opened leaves a half-registered member, the next call retries it and close() fails")
         # lock-step of the three registrations: on every path either all or none
         if regs:
             kinds = {k for k, _ in regs}
-            ctx.check(kinds == {"files_info.files", "files_info.emptyfiles", "self.files"}, "R15.1", f, f.node, f"{name}: all three registries updated",
+            ctx.check(kinds == {"files_info.files", "files_info.emptyfiles", "self.files"}, rule, f, f.node, f"{name}: all three registries updated",
                       f"{name} updates only {sorted(kinds)} of the three member registries", construct=f"{name} registries")
 
 
